@@ -10,10 +10,10 @@ echo "-- existing test suite with patch"
 cargo nextest run --workspace --no-fail-fast --offline --test-threads 5 2>&1 | grep -E "^\s*Summary|^error" | head -3
 cp $SD/demo$N.rs tests/seed_demo.rs
 echo "-- demo with patch (must FAIL)"
-cargo test --offline --test seed_demo 2>&1 | grep -E "^test result|^error" | head -3
+cargo test --offline $FEAT --test seed_demo 2>&1 | grep -E "^test result|^error" | head -3
 git checkout -q -- .
 echo "-- demo without patch (must PASS)"
-cargo test --offline --test seed_demo 2>&1 | grep -E "^test result|^error" | head -3
+cargo test --offline $FEAT --test seed_demo 2>&1 | grep -E "^test result|^error" | head -3
 rm -f tests/seed_demo.rs
 git status --short | head -3
 } > $OUT 2>&1
